@@ -299,7 +299,26 @@ func (b *binder) bind(prefix, value string) string {
 	return n
 }
 
-func (b *binder) S(s string) string { return b.bind("s", Str(s)) }
+// strLit prints a Gallina string literal; unlike common.Str it keeps a line feed (a Coq string
+// literal may span lines), which some generated account names contain.
+func strLit(s string) string {
+	var sb strings.Builder
+	sb.WriteByte('"')
+	for _, c := range []byte(s) {
+		switch {
+		case c == '"':
+			sb.WriteString(`""`)
+		case c == '\n' || (c >= 32 && c < 127):
+			sb.WriteByte(c)
+		default:
+			sb.WriteByte('?')
+		}
+	}
+	sb.WriteString(`"%string`)
+	return sb.String()
+}
+
+func (b *binder) S(s string) string { return b.bind("s", strLit(s)) }
 
 func (b *binder) Num(x uint64) string {
 	switch {
